@@ -49,6 +49,9 @@ def model_bin():
 
 
 # ------------------------------------------------------------------------------ contents
+HTML_BODY = b"<!DOCTYPE html><html><head><title>Sign in to the network</title></head><body>" + b"<p>captive portal</p>" * 40 + b"</body></html>\n"
+
+
 class Contents:
     def __init__(self):
         self.new = open(SNAPSHOT, "rb").read()
@@ -80,7 +83,9 @@ def server_variants(tier_thorough, n, seed=1):
     cuts_thorough = sorted(set([0, 1, 2, 511, 512, 999, 1000, 1001, 1447, 1448, 1449, 2896, 2999, 3000, 3001, 4096, n // 2, n - 2, n - 1] +
                                list(range(256, n, 256))))
     cuts = sorted(set((cuts_thorough if tier_thorough else cuts_quick) + extra))
-    v = [("200-complete", {"kind": "full", "status": 200, "pieces": []}),
+    # a complete 200 whose body is not currency data (a captive portal page): it is the new contents all the same
+    v = [("200-complete-html", {"kind": "full", "status": 200, "pieces": [], "_body": HTML_BODY}),
+         ("200-complete", {"kind": "full", "status": 200, "pieces": []}),
          ("200-complete-3pieces", {"kind": "full", "status": 200, "pieces": [1000, 3000]})]
     if tier_thorough:
         v.append(("200-complete-8pieces", {"kind": "full", "status": 200, "pieces": [1, 700, 1448, 2896, 4000, 5000, n - 1]}))
@@ -202,7 +207,7 @@ class Runner:
     def body_for(self, plan):
         if plan.get("error_body"):
             return b"<html>error %d from the fault server</html>\n" % plan.get("status", 0)
-        return plan.get("_body") or self.ct.new
+        return plan.get("_body") or (HTML_BODY if plan.get("html") else self.ct.new)
 
     def setup(self, root, prior, cfg, url, timeout, age=7200):
         shutil.rmtree(root, ignore_errors=True)
@@ -612,7 +617,8 @@ def oracle(scn, obs, runner):
     if nx["rc"] != 0 or not nx["plain_ok"]:
         bad.append(("next-start-fatal", "the next start (server unreachable) did not continue: rc=%s plain=%s tail=%r" % (nx["rc"], nx["plain_ok"], nx["out"][-300:])))
     else:
-        want = {"new": "new", "old": "old" if prior in ("fresh", "stale", "future") else "none", "absent": "none"}.get(after)
+        new_readable = scn["server"].get("_body") in (None, runner.ct.new, runner.ct.new2) and not scn["server"].get("html")
+        want = {"new": "new" if new_readable else "none", "old": "old" if prior in ("fresh", "stale", "future") else "none", "absent": "none"}.get(after)
         if want and nx["money"] != want:
             key = "success-not-visible" if after == "new" else "next-start-no-fallback"
             bad.append((key, "cache holds the %s contents but the next start answered `%s` with %s rates" % (after, QUERY_MONEY, nx["money"])))
@@ -699,6 +705,8 @@ def strip_obs(obs):
 def public_scn(scn):
     s = {k: v for k, v in scn.items() if not k.startswith("_")}
     s["server"] = {k: v for k, v in scn["server"].items() if not k.startswith("_")}
+    if scn["server"].get("_body") == HTML_BODY:
+        s["server"]["html"] = True
     return s
 
 
@@ -859,6 +867,11 @@ def run(c):
                       "entry": "fetch", "cfg": s["cfg"], "kill": None}
             res = refresh_in_place(runner, o["root"], follow)
             stats["runs"] += 1
+            if res["after_is_new2"] and res["rc"] == 0:
+                # ... and neither does it leak into a later, shorter download
+                short = dict(follow, server=dict(follow["server"], name="200-short-after-orphan", _body=b"[]\n"))
+                res = refresh_in_place(runner, o["root"], short)
+                stats["runs"] += 1
             if res["after_is_new2"] and res["rc"] == 0:
                 orphan_ok += 1
             else:
